@@ -862,7 +862,7 @@ def single_thread_part(ctx, env_holder, runner_holder, shapes, two_fault, exc_cl
     counter = [0]
     def new_env():
         counter[0] += 1
-        return make_env(ctx.tmp(), 's%d-e%d' % (ctx.shard, counter[0]), None)
+        return make_env(ctx.tmp(), 's%d-e%d' % (ctx.shard, counter[0]), 0.5)
 
     def call(fn):
         env = env_holder[0]
@@ -954,7 +954,7 @@ def run(ctx):
         mt_sched, mt_free = 60, 6
 
     runner_holder = [Runner()]
-    env_holder = [make_env(ctx.tmp(), 's%d' % ctx.shard, None)]
+    env_holder = [make_env(ctx.tmp(), 's%d' % ctx.shard, 0.5)]
     single_thread_part(ctx, env_holder, runner_holder, mine, two_fault, exc_classes)
     runner_holder[0].stop()
 
